@@ -103,6 +103,10 @@ class Ctx:
         fcntl.flock(self.lockf, fcntl.LOCK_EX)
 
     def violation(self, stage, what, sig, detail=None, found_input=True):
+        if not found_input and getattr(self, "cases_unloadable", False) and str(stage).startswith("S4"):
+            # the generated cases could not even be loaded (a broken proof left a stale/missing .vo): the broken
+            # obligation is the finding, not a model/implementation disagreement
+            return
         self.violations.append({"stage": stage, "what": what, "sig": sig, "detail": detail or {},
                                 "found_input": found_input})
 
@@ -239,6 +243,14 @@ def coq_build(ctx, targets, timeout=1500, per_file_timeout=600):
         f = m.group(1)[:-1]
         if not any(x[0] == f for x in fails):
             fails.append((f, "?", "timeout (exit 124)" if m.group(2) == "124" else f"coqc exit {m.group(2)}"))
+    for f, _, _ in fails:
+        # a file that failed to build must not leave a stale .vo behind (dependents would load an inconsistent library)
+        if f.endswith(".v"):
+            for ext in ("o", "ok", "os"):
+                try:
+                    os.remove(os.path.join(COQ, f + ext))
+                except OSError:
+                    pass
     ok = rc == 0 and not fails
     if rc != 0 and not fails:
         fails.append(("?", "?", "make failed: " + log[-800:]))
@@ -387,6 +399,14 @@ Local Open Scope R_scope.
 """
 
 
+def _note_unloadable(ctx, name, out):
+    if re.search(r"makes inconsistent assumptions|Cannot find a physical path|Unable to locate library|Cannot load", out) \
+            and not getattr(ctx, "cases_unloadable", False):
+        ctx.cases_unloadable = True
+        ctx.proof_failures.append((f"Cases/{name}", "load", "generated correspondence cases could not be loaded: a library they import "
+                                   "did not build on this tree (see the broken obligations above)"))
+
+
 def run_interval_cases(ctx, name, imports, goals, shards=None, timeout=900, setup=""):
     """goals: list of (case_id, goal_text, tactic_text).  Each is tried under assert_succeeds; nothing is admitted.
     Returns dict case_id -> True/False (False also when the shard crashed/timed out)."""
@@ -424,6 +444,7 @@ def run_interval_cases(ctx, name, imports, goals, shards=None, timeout=900, setu
             res[m.group(1)] = m.group(2) == "OK"
         if "Error" in o and "CASE" not in o.split("Error")[-1]:
             ctx.log("   case shard error: " + o[-600:].replace("\n", " | "))
+            _note_unloadable(ctx, name, o)
     for cid, _, _ in goals:
         res.setdefault(str(cid), False)
     nok = sum(1 for v in res.values() if v)
@@ -474,6 +495,7 @@ def run_compute_cases(ctx, name, imports, defs, exprs, shards=None, timeout=900)
             res[m.group(1)] = " ".join(txt.split())
         if "Error" in o:
             ctx.log("   compute shard error: " + o[o.index("Error") - 200:][:800].replace("\n", " | "))
+            _note_unloadable(ctx, name, o)
     ctx.log(f"S4 {name}: {len(res)}/{len(exprs)} model evaluations by vm_compute in {time.time()-t:.1f}s ({len(files)} shards)")
     ctx.cov["checker_cmd"] += f"; coqc -Q coq SpdVerif coq/Cases/{name}/shard*.v ({len(exprs)} vm_compute evaluations)"
     return res
